@@ -72,21 +72,26 @@ def run_cell(arg):
         scen = {"builder": "density_cell", "params": {"cell": c}}
         nm = c.get("names", "sorted")
         PARAMS = ["b", "a"] if nm == "unsorted" else ["a", "b"]
-        pos_bounds = [BOUNDS["a"], BOUNDS["b"]]            # bounds by *position* of the parameter
+        sc = c.get("scale", "unit")
+        b2 = {"unit": BOUNDS["b"], "tiny": [0.0, 2e-5], "huge": [-1e6, 3e6]}[sc]
+        pos_bounds = [BOUNDS["a"], b2]            # bounds by *position* of the parameter
+        tag_scale = sc
         items = list(zip(PARAMS, pos_bounds))
         if nm == "revdict":
             items = items[::-1]
         PB = {k: list(v) for k, v in items}
-        tag += "|" + nm
+        tag += "|" + nm + "|" + sc
         rng = np.random.default_rng(7)
-        data = np.stack([rng.uniform(-1.5, 2.5, 96), rng.uniform(1.0, 4.0, 96)], axis=1)
+        def col2(v):       # the second column, mapped affinely from the unit-scale support [0.5, 4.5] to the declared one
+            return b2[0] + (np.asarray(v) - BOUNDS["b"][0]) / (BOUNDS["b"][1] - BOUNDS["b"][0]) * (b2[1] - b2[0])
+        data = np.stack([rng.uniform(-1.5, 2.5, 96), col2(rng.uniform(1.0, 4.0, 96))], axis=1)
         try:
             tr = FlowTransform(parameters=list(PARAMS), prior_bounds=dict(PB), bounded_to_unbounded=c["bounded"] != "off",
                                bounded_transform=c["bounded"] if c["bounded"] != "off" else "logit",
                                affine_transform=c["affine"], xp=xp, dtype=dt)
             fl = build_flow(be, dt, tr)
             if c.get("refit"):
-                other = np.stack([rng.uniform(0.0, 0.5, 96), rng.uniform(2.0, 2.2, 96)], axis=1)   # much narrower
+                other = np.stack([rng.uniform(0.0, 0.5, 96), col2(rng.uniform(2.0, 2.2, 96))], axis=1)   # much narrower
                 if c["state"] == "untrained":
                     fl.fit_data_transform(xp.asarray(np.asarray(other, dtype=dt)))
                 elif be == "zuko":
@@ -138,7 +143,7 @@ def run_cell(arg):
             if smcdrv.width_of(x) < (32 if dt == "float32" else 64) or smcdrv.width_of(lq) < (32 if dt == "float32" else 64):
                 out["viol"].append((f"SampleEvalAgree|dtype|{tag}", f"draws / log_q have width {smcdrv.width_of(x)}/{smcdrv.width_of(lq)} for a {dt} flow"))
             if c["bounded"] != "off":
-                lo = np.array([BOUNDS["a"][0], BOUNDS["b"][0]]); hi = np.array([BOUNDS["a"][1], BOUNDS["b"][1]])
+                lo = np.array([BOUNDS["a"][0], b2[0]]); hi = np.array([BOUNDS["a"][1], b2[1]])
                 if not (np.all(xn >= lo) and np.all(xn <= hi)):
                     out["viol"].append((f"DrawsInBounds|{tag}", f"draws outside the declared bounds: min {xn.min(0)}, max {xn.max(0)}"))
                 u = (xn - lo) / (hi - lo)
@@ -160,7 +165,10 @@ def run_cell(arg):
             try:
                 f0 = build_flow(be, dt, ConstJacTransform(xp, 0.0, dt), seed=9)
                 f5 = build_flow(be, dt, ConstJacTransform(xp, 5.0, dt), seed=9)
-                pr = xp.asarray(np.asarray(data[:16], dtype=dt))
+                # unit-scale probe points whatever the declared support of the cell (a shift of 5 must be
+                # resolvable next to the magnitude of the log-density)
+                prng = np.random.default_rng(11)
+                pr = xp.asarray(np.asarray(np.stack([prng.uniform(-1.5, 2.5, 16), prng.uniform(1.0, 4.0, 16)], axis=1), dtype=dt))
                 d_lp = np.asarray(smcdrv.to_np(f5.log_prob(pr)), dtype=np.float64) - np.asarray(smcdrv.to_np(f0.log_prob(pr)), dtype=np.float64)
                 if be == "zuko":
                     import torch
@@ -200,9 +208,16 @@ def main(prop, tier, seed, replay_path=None):
         todo = [scen["params"]["cell"]]
     elif tier == "quick":
         must = [c for c in cells if c["state"] == "untrained" and c["bounded"] == "off" and not c["affine"]]
+        must = [c for c in must if c.get("scale", "unit") == "unit" and c.get("names", "sorted") == "sorted"]
         rest = [c for c in cells if c not in must]
         rnd.shuffle(rest)
-        todo = must + rest[:36]
+        # stratified: one cell for every (names, scale, bounded transform) combination, then random ones
+        strat, seen_k = [], set()
+        for c in rest:
+            k = (c.get("names"), c.get("scale"), c["bounded"])
+            if k not in seen_k:
+                seen_k.add(k); strat.append(c)
+        todo = must + strat + [c for c in rest if c not in strat][:16]
     else:
         todo = cells
     args = [(i, c, spec["shift_log_prob"], spec["shift_sample_log_q"]) for i, c in enumerate(todo)]
